@@ -34,10 +34,7 @@ func TestC17(t *testing.T) {
 	r := mon.NewRunner(t, "C17")
 	rnd := r.Rand()
 	var cases []mon.CaseSpec
-	trans := []string{"inproc", "tcp", "ipc"}
-	if r.Thorough() {
-		trans = hx.Transports
-	}
+	trans := hx.Transports // all six in both tiers: transport-specific aliasing (e.g. ws header/body joining) needs its transport
 	reps := r.Pick(10, 400)
 	for rep := 0; rep < reps; rep++ {
 		for _, tr := range trans {
